@@ -217,7 +217,13 @@ def faceBlock (swap : Bool) (P Q pv : Tri3 α) : Bool × Option α :=
   let zero : α := Scalar.zero
   let sn := cross pv.a pv.b
   let snl := dot sn sn
-  if lt (MConst.tiny : α) snl then
+  -- `std::max({dot(Sv0,Sv0), dot(Sv1,Sv1), dot(Sv2,Sv2)})`, then `Snl > 1e-15 * Sl2 * Sl2` (relative degeneracy test)
+  let d0 := dot pv.a pv.a
+  let d1 := dot pv.b pv.b
+  let d2 := dot pv.c pv.c
+  let m01 := if lt d0 d1 then d1 else d0
+  let sl2 := if lt m01 d2 then d2 else m01
+  if lt (((MConst.tiny : α) *. sl2) *. sl2) snl then
     let tp0 := dot (vsub P.a Q.a) sn
     let tp1 := dot (vsub P.a Q.b) sn
     let tp2 := dot (vsub P.a Q.c) sn
